@@ -26,7 +26,12 @@ func hyperTraversals(p *Program) []hyperTrav {
 	sp := p.SSAPkg[modPkg(pkgHyper)]
 	var out []hyperTrav
 	for _, fn := range p.ModFuncs {
-		if fn.Pkg != sp || fn.Parent() == nil || p.isTestScaffold(fn) {
+		if fn.Pkg != sp || p.isTestScaffold(fn) || fn.Synthetic != "" {
+			continue
+		}
+		// traversal closures, or (after "closure → top-level function") unexported functions of the
+		// same shape that return nothing (step constructors return the step)
+		if fn.Parent() == nil && (fn.Signature.Results().Len() != 0 || fn.Signature.Recv() != nil || fn.Object() == nil || fn.Object().Exported()) {
 			continue
 		}
 		t := hyperTrav{fn: fn, posI: -1, batchI: -1, idxI: -1, lvI: -1}
@@ -226,6 +231,13 @@ func hyperCoordinates(c *Ctx, rule string) {
 				}
 			}
 			f := cc.StaticCallee()
+			if isTrav[f] != nil {
+				// a descent (or a sibling's disposal) through a named traversal function: its own slot or a child's
+				if bArg != nil && iArg != nil && isBatch(bArg) && !(isIdx(iArg) || isChildIdx(iArg, isIdx, "1") || isChildIdx(iArg, isIdx, "2")) {
+					fail(in, fmt.Sprintf("%s is entered for slot %s of the node's batch; the node being traversed is slot iBatch", f.Name(), iArg))
+				}
+				return
+			}
 			isStepCtor := f.Signature.Results().Len() == 1 && namedIs(f.Signature.Results().At(0).Type(), pkgHyper, "operation")
 			if isStepCtor && pArg != nil {
 				n++
